@@ -168,6 +168,16 @@ func (r *KeyRing) commitTX() {
 	r.txLog = nil
 }
 
+// rollbackPendingTX undoes in-memory effects of applyPendingTX() when the result could not be stored.
+func (r *KeyRing) rollbackPendingTX() {
+	for i := len(r.txLog) - 1; i >= 0; i-- {
+		err := r.txLog[i].Rollback(r)
+		if err != nil {
+			r.log.WithError(err).Warn("failed to roll back update")
+		}
+	}
+}
+
 func (r *KeyRing) setCurrent(newSeqnum int) error {
 	oldSeqnum := r.data.Current
 	r.pushTX(&txSetKeyCurrent{oldSeqnum, newSeqnum})
